@@ -14,7 +14,7 @@ import (
 // C05: accepted logins reach the correlator exactly once, after the write, unless cancelled;
 // a write failure is returned and nothing is forwarded.
 //
-// FORM: 0 public key, 1 certificate, 2 password.
+// FORM: 0 public key, 1 certificate, 2 password, 3 public key with trailing non-certificate text.
 // MODE: 0 buffered (ready) correlator; 1 unbuffered correlator with a receiver goroutine;
 //       2 never-ready correlator, context cancelled before the call;
 //       3 never-ready correlator, context cancelled concurrently (also while the hand-off is blocked).
@@ -46,6 +46,12 @@ func VerifC05Accepted() {
 			" ID ", verifrt.F("keyid", 1, I, verifClassKeyID), " (serial ", fld("serial", 1, 4, verifClassDigit), ") CA ",
 			fld("catype", 1, 6, verifClassKeyType), " ", fld("cahash", 1, 6, verifClassHash), ":", fld("cafp", 1, K, verifClassFP))
 		line, wantCred = t.Line, t.Fields[6]
+	case 3: // public key followed by text that is not a certificate description
+		t := verifrt.Template("Accepted publickey for ", fld("user", 1, U, verifClassAccount),
+			" from ", fld("addr", 1, A, verifClassHost), " port ", fld("port", 1, 5, verifClassDigit),
+			" ssh2: ", fld("keytype", 1, 6, verifClassKeyType), " ", fld("hash", 1, 6, verifClassHash), ":", fld("fp", 1, K, verifClassFP),
+			" ", verifrt.F("trailing", 1, I, `[a-z ,]`))
+		line, wantCred = t.Line, common.UnknownUser
 	default:
 		t := verifrt.Template("Accepted password for ", fld("user", 1, U, verifClassAccount),
 			" from ", fld("addr", 1, A, verifClassHost), " port ", fld("port", 1, 5, verifClassDigit), " ssh2")
